@@ -1,8 +1,10 @@
 from lib.engine import Check
 from lib.emit import emit_stream
+from lib import srcfacts
 
 CHECK = Check(
     "C04",
+    pre=srcfacts.pre,
     streams=[emit_stream("c04", drv="c04")],
     rule=("generated inspectors of the model's emit units x value variants x every resolving path and the unknown-field / "
           "absent-key / index -1,len,len+1,huge / unparsable-segment / nil-pointer / past-scalar variants x right operands chosen "
